@@ -36,7 +36,7 @@ class P(Profile):
     n_max = 4
     apps_max = 1
     progs_max = 2
-    fault_ops = ('crash', 'restart', 'restart', 'cut', 'mute', 'mute', 'isolate', 'heal', 'heal_all', 'boot')
+    fault_ops = ('crash', 'restart', 'restart', 'restart_checked', 'cut', 'mute', 'mute', 'isolate', 'heal', 'heal_all', 'boot')
     proc_ops = ('direct_start', 'direct_start', 'direct_stop')
     user_ops = ()
     op_rate = 0.25
